@@ -1025,10 +1025,20 @@ namespace nmtools::view
 
             auto c = view::reshape(b,tf_rhs_shape);
 
-            return view::sum(
+            auto result = view::sum(
                 view::multiply(a,c)
                 , sum_axis
             );
+            using result_t = decltype(result);
+            // the contracted extents must be equal, they are not broadcast against each other
+            // (the multiply above would accept 1 against n): ask shape_matmul, as view::matmul does;
+            // for shapes that are only known at run time so is their compatibility: Nothing
+            const auto m_shape = index::shape_matmul(lhs_shape,rhs_shape);
+            if constexpr (meta::is_maybe_v<result_t> && meta::is_maybe_v<decltype(m_shape)>) {
+                return (has_value(m_shape) ? result : result_t{meta::Nothing});
+            } else {
+                return result;
+            }
         }
     } // matmulv2
 } // nmtools::view
